@@ -499,6 +499,17 @@ func judgeC18(hi *Hist) []*Violation {
 		}
 		L, seen := lastFrameOf[bf.Idx]
 		if !seen {
+			// "drawn there in its finished state": a finished bar that was never drawn at all
+			must := auto
+			if !auto && bf.Queued && hi.Sc.Cont.Refresh == h.RefManual && !cancelled(hi) {
+				// manual refresh: a successor created before its predecessor's last frame takes over in the next one
+				if lp, ok := lastFrameOf[bf.Pred]; ok && lp < len(frames)-1 && bf.AddRet < cycleFirstEvent(hi, frames, lp) {
+					must = true
+				}
+			}
+			if must && !(hi.Sc.Cont.Terminal && hi.Sc.Cont.TermH < 2) && poppable(hi, bf) && bf.Final != nil && (bf.Final.Completed || bf.Final.Aborted) && !(bf.Sequential && bf.Model.Aborted && bf.Model.Drop) {
+				add("never-shown", "bar %d finished (completed=%v aborted=%v) in pop-completed mode but no frame ever shows it (%d frames)", bf.Idx, bf.Final.Completed, bf.Final.Aborted, len(frames))
+			}
 			continue
 		}
 		if !poppable(hi, bf) {
